@@ -129,6 +129,86 @@ func otherMountsStage() {
 			}
 			mod.Close(ctx)
 		}
+		// vanishing objects: a directory (and a file) opened through a mount and then REMOVED behind the guest's back
+		// (through the host, as another mount of the same directory would do): every later call on the descriptor - a
+		// rewinding fd_readdir first of all - answers an errno; a failed re-open must not leave the descriptor half-built
+		for mi, mk := range []struct {
+			name string
+			fsc  func(d string) wazero.FSConfig
+		}{
+			{"WithFSMount(os.DirFS)", func(d string) wazero.FSConfig { return wazero.NewFSConfig().WithFSMount(os.DirFS(d), "/") }},
+			{"WithDirMount", func(d string) wazero.FSConfig { return wazero.NewFSConfig().WithDirMount(d, "/") }},
+			{"WithReadOnlyDirMount", func(d string) wazero.FSConfig { return wazero.NewFSConfig().WithReadOnlyDirMount(d, "/") }},
+		} {
+			vd := filepath.Join(dir, fmt.Sprintf("vanish-%s-%d", engine, mi))
+			os.MkdirAll(filepath.Join(vd, "victim", "inner"), 0o755)
+			os.WriteFile(filepath.Join(vd, "victim", "a.txt"), []byte("a"), 0o644)
+			os.WriteFile(filepath.Join(vd, "gone.txt"), []byte("soon gone"), 0o644)
+			mod, err := rt.InstantiateModule(ctx, cm, wazero.NewModuleConfig().WithName(fmt.Sprintf("vanish%d", mi)).WithFSConfig(mk.fsc(vd)))
+			if err != nil {
+				hx.Fatal("mounts stage (%s): %v", mk.name, err)
+			}
+			mem := mod.Memory()
+			var trace []string
+			call := func(fn string, args ...uint64) (errno uint32, failed bool) {
+				out, err := mod.ExportedFunction("c_"+fn).Call(ctx, args...)
+				if err != nil {
+					trace = append(trace, fmt.Sprintf("%s%v -> HOST ERROR %v", fn, args, firstLines(err.Error(), 1)))
+					return 0, true
+				}
+				trace = append(trace, fmt.Sprintf("%s%v -> errno %d", fn, args, uint32(out[0])))
+				return uint32(out[0]), false
+			}
+			open := func(p string, oflags uint64) uint64 {
+				mem.Write(1024, []byte(p))
+				mem.WriteUint32Le(2048, 0xdeadbeef)
+				call("path_open", 3, 0, 1024, uint64(len(p)), oflags, 2|0x4000|0x200000, 2|0x4000|0x200000, 0, 2048)
+				fd, _ := mem.ReadUint32Le(2048)
+				return uint64(fd)
+			}
+			bad := false
+			dfd, ffd := open("victim", 2), open("gone.txt", 0)
+			steps := []func() bool{
+				func() bool { _, f := call("fd_readdir", dfd, 4096, 2048, 0, 8); return f },
+				func() bool { _, f := call("fd_read", ffd, 3000, 0, 8); return f },
+				func() bool {
+					os.RemoveAll(filepath.Join(vd, "victim"))
+					os.Remove(filepath.Join(vd, "gone.txt"))
+					return false
+				},
+				func() bool { _, f := call("fd_readdir", dfd, 4096, 2048, 0, 8); return f }, // cookie 0: a rewind, which re-opens
+				func() bool { _, f := call("fd_filestat_get", dfd, 8192); return f },
+				func() bool { _, f := call("fd_fdstat_get", dfd, 8192); return f },
+				func() bool { _, f := call("fd_readdir", dfd, 4096, 2048, 0, 8); return f },
+				func() bool { _, f := call("fd_filestat_get", ffd, 8192); return f },
+				func() bool { _, f := call("fd_seek", ffd, 0, 0, 8); return f },
+				func() bool { _, f := call("fd_close", dfd); return f },
+				func() bool { _, f := call("fd_close", ffd); return f },
+			}
+			for _, st := range steps {
+				if st() {
+					bad = true
+				}
+			}
+			func() {
+				defer func() {
+					if r := recover(); r != nil {
+						trace = append(trace, fmt.Sprintf("Module.Close -> GO PANIC %v", r))
+						bad = true
+					}
+				}()
+				mod.Close(ctx)
+			}()
+			rep.Case(fmt.Sprintf("mounts-vanish/%s/%s", engine, mk.name))
+			if bad {
+				rep.Violate(hx.Violation{Kind: "impl-violation", Signature: "C15:host-runtime-error-on-a-vanished-object",
+					What:     fmt.Sprintf("%s, %s: a descriptor whose directory / file was removed behind the guest's back made a WASI call fail inside the host (Go runtime error) instead of answering an errno", engine, mk.name),
+					Input:    map[string]any{"stage": "other mounts / vanishing objects", "engine": engine, "mount": mk.name, "history": "open victim/ (O_DIRECTORY) and gone.txt; fd_readdir, fd_read; the host removes both; fd_readdir cookie 0 (rewind); fd_filestat_get, fd_fdstat_get, fd_readdir, fd_seek, fd_close"},
+					Expected: "an errno from every call", Actual: trace})
+			} else {
+				rep.Count("mounts-vanish:ok")
+			}
+		}
 		rt.Close(ctx)
 	}
 }
